@@ -20,6 +20,14 @@ CHECKS = {
   text="Lean theorems for all byte strings: the read(copyBlock) loop (block size extracted from VFS_Real.copyto) reproduces the bytes for every positive block size, with non-empty blocks of at most one block; the Gopher+ '+N' header parses back to exactly the body length and the body to the file; unknown size gives '+-2'; HEAD is the GET headers with no body; the WAP text-to-WML conversion is invertible line by line up to right-stripping (and injective); MIME type is the table's answer adjusted per protocol. Tie: blocks written by the real copyto, whole Gopher+/HTTP/WML responses and MIME types vs the model. Oracle: body==file bytes, +N==len, HEAD==GET headers, type==mimetypes, independent WML inverse, for sizes around every multiple of 4096, binary/CRLF/invalid-UTF-8 contents, hostile names, 9 protocol syntaxes, both handler lists.",
   note="partial: TOCTOU between stat and open, TLS record layer and decompressor/script output are runtime (length oracle only); mimetypes.guess_type is an oracle fed to the model",
   technique="Lean 4 proof (copy loop, framing, WML inverse) + differential correspondence + byte-equality oracle"),
+ "C05": dict(
+  text="Lean theorems for all byte strings: UTF-8/surrogateescape encode(decode bs)=bs, unquote_to_bytes(quote bs)=bs, unquote(quote bs)=decode bs; quote's output alphabet excludes space, TAB, CR, LF, quotes, angle brackets, ?, #, &, =, +, |, NUL, backslash; for every listed selector (decoded from bytes, leading slash, no trailing slash) following its link as HTTP(S) 'GET <quote>', WAP '<waptop><quote>', Spartan, Gopher / Gopher+ hands the handlers exactly that selector (parseRequest composed with the link renderer), the Gemini path and query-prefix round trips, root link. Tie: selector seen by the real handler for every followed link vs the model's parse; links shown in HTTP listings vs the model's quote. Oracle: full crawl from '/' in 7 protocol syntaxes over real directories, gophermaps, mbox/Maildir folders, ZIP archives, PYG/scripts and 36 hostile names; every local link must succeed with the advertised kind.",
+  note="request-line tokenisation is a hypothesis of the follow-link theorems (requestParts = [method, link, version]) discharged by the alphabet lemma only informally; reserved URL prefixes (/wap, /GEMINI-QUERY, icons) are configuration namespace, not content; names with TAB/LF are crawled only through URL-based protocols",
+  technique="Lean 4 proof (codec and percent-encoding round trips composed with the request parsers) + correspondence + exhaustive crawl oracle"),
+ "C06": dict(
+  text="Lean theorems: a listed selector resolves to the same handler selector through Gopher, HTTP(S), WAP and Spartan (and the Gemini path pipeline); trailing slash is irrelevant; writedir walks the same entry list in the same order for every view, abstract lines being the only difference and decided uniformly for all non-Gopher+ protocols; a search string with bytes bs reaches the handlers as decode(bs) through the HTTP searchrequest parameter and the Gemini URL query (percent-encoded) and literally through the Gopher tab field. Tie: (selector, search) seen by a recording handler vs Model/Proto on seeded requests in all syntaxes. Oracle (model-free): (name,target) sequences parsed client-side from 7 views x 3 abstract settings of every directory of a generated site are equal; trailing-slash variants; same MIME everywhere; search strings equal through 6 mechanisms.",
+  note="Gopher cannot express search strings containing TAB or beginning with + ! $ (protocol syntax); Gemini/Spartan display names pass through backslashreplace by design",
+  technique="Lean 4 proof (request-pipeline equalities, walk invariants, query-string decoding) + correspondence + cross-protocol oracle"),
  "C09": dict(
   text="Lean theorems for every gophermap file and line: one entry per line in file order (parse distributes over concatenation, no state crosses lines), a line without a tab is an info entry with the stripped text, otherwise first character = type, rest of first field = description, missing selector defaults to the description, a selector starting neither with '/' nor 'URL:' is resolved against the directory, host/port taken when present else unset and rendered as this server, population from the file system never changes authored selector/host/port, well-formed lines never raise; the same parsed list drives every protocol view. Tie: real listings in seven views (Gopher, Gopher+ '+' and '$', HTTP, WAP, Gemini, Spartan) of seeded gophermaps at depth 0-3 vs the model, byte for byte in the rows region, with stat/MIME/sidecar answers of existing targets fed to the model. Oracle: independent reader written from doc/standards/gophermap.txt.",
   note="port fields restricted to ASCII decimals (int() accepts more); boilerplate around the rows and Mod-Date formatting are masked; library answers (stat, mimetypes, regex mapping) are oracles",
